@@ -186,17 +186,33 @@ def enum_syncs(seed):
                 tags.add("MISSING")
         return tags.pop() if len(tags) == 1 else "PARTIAL"
 
-    def one_sync(root, tarball, stop_at=None):
-        """run the two real methods the way http_syncer._sync does; returns 'ok' | 'SyncError' | 'stopped'"""
+    def snapshot(p):
+        out = {}
+        for dp, dn, fn in os.walk(p):
+            for f in fn:
+                q = os.path.join(dp, f)
+                out[os.path.relpath(q, p)] = open(q, "rb").read()
+        return out
+
+    def one_sync(root, tarball, stop_at=None, etag="v1"):
+        """the real http_syncer._sync / tar_syncer hooks against a stub HTTP response; returns 'ok' | 'SyncError' | 'stopped' | 'unchanged'"""
+        import io
+        import pkgcore.sync.http as H
         basedir = os.path.join(root, "name")
         s = object.__new__(T.tar_syncer)
-        s.basedir, s.uri = basedir + "/", "https://example.org/repo.tar.gz"
-        s._download = types.SimpleNamespace(close=lambda: None)
+        s.basedir, s.uri, s.basename = basedir + "/", "http://example.org/repo.tar.gz", "repo.tar.gz"
+        data = open(tarball, "rb").read()
+
+        class Resp(io.BytesIO):
+            def getheader(self, name, default=None):
+                return {"etag": etag, "last-modified": f"Mon, 01 Jan 2024 00:00:0{etag[-1]} GMT" if etag else None, "content-length": str(len(data))}.get(name.lower(), default)
         counter = {"n": 0}
         real = {"rename": os.rename, "makedirs": os.makedirs, "run": subprocess.run}
 
         def wrap(name):
             def f(*a, **k):
+                if name == "makedirs" and k.get("exist_ok"):
+                    return real[name](*a, **k)      # http_syncer creating the repository path: not part of the swap
                 counter["n"] += 1
                 if stop_at is not None and counter["n"] == stop_at:
                     raise _Stop()
@@ -204,22 +220,24 @@ def enum_syncs(seed):
             return f
         os.rename, os.makedirs, subprocess.run = wrap("rename"), wrap("makedirs"), wrap("run")
         regs = []
-        real_reg = T.atexit.register
+        real_reg, real_open = T.atexit.register, H.urllib.request.urlopen
         T.atexit.register = lambda f, *a, **k: regs.append(f)
+        H.urllib.request.urlopen = lambda req, context=None: Resp(data)
+        import sys
+        real_stdout = sys.stdout
+        sys.stdout = io.StringIO()
         try:
-            dest = s._pre_download()
-            real["makedirs"](basedir, exist_ok=True)            # http_syncer._sync does this before downloading
-            shutil.copyfile(tarball, dest)
-            s._post_download(dest)
-            res = "ok"
+            before_etag = None
+            res = "ok" if s._sync(0) else "failed"
         except _Stop:
             res = "stopped"      # process death: no atexit handlers run
             regs = []
         except base.SyncError:
             res = "SyncError"
         finally:
+            sys.stdout = real_stdout
             os.rename, os.makedirs, subprocess.run = real["rename"], real["makedirs"], real["run"]
-            T.atexit.register = real_reg
+            T.atexit.register, H.urllib.request.urlopen = real_reg, real_open
         for f in regs:
             try:
                 f()
@@ -237,12 +255,17 @@ def enum_syncs(seed):
             root = os.path.join(scratch, f"f-{bad}")
             os.makedirs(root)
             cases += 1
-            assert one_sync(root, tars["old"]) == "ok"
-            r = one_sync(root, tars[bad])
+            assert one_sync(root, tars["old"], etag="v1") == "ok"
+            snap = snapshot(basedir(root))
+            r = one_sync(root, tars[bad], etag="v2")
             st = tree_state(basedir(root))
             if r != "SyncError" or st != "old":
                 fails.append({"model": {"tarball": bad}, "detail": f"sync from a {bad} tarball returned {r}; the repository path then holds {st} (expected SyncError and the old tree)"})
-            r2 = one_sync(root, tars["new"])
+            after = snapshot(basedir(root))
+            if after != snap:
+                diff = sorted(k for k in set(snap) | set(after) if snap.get(k) != after.get(k))
+                fails.append({"model": {"tarball": bad}, "detail": f"a failed sync ({bad} tarball) changed the previous tree: {diff}"})
+            r2 = one_sync(root, tars["new"], etag="v2")     # the server still advertises the same validators
             if (r2, tree_state(basedir(root))) != ("ok", "new"):
                 fails.append({"model": {"tarball": bad, "follow_up": True}, "detail": f"the sync after a failed one returned {r2}; the repository path holds {tree_state(basedir(root))}"})
         # every file operation as a stop point, then inspect, then sync again
@@ -252,16 +275,16 @@ def enum_syncs(seed):
                 root = os.path.join(scratch, f"s-{int(have_old)}-{stop}")
                 os.makedirs(root)
                 if have_old:
-                    assert one_sync(root, tars["old"]) == "ok"
+                    assert one_sync(root, tars["old"], etag="v1") == "ok"
                 cases += 1
-                r = one_sync(root, tars["new"], stop_at=stop)
+                r = one_sync(root, tars["new"], stop_at=stop, etag="v2")
                 st = tree_state(basedir(root))
                 ok_now = st in ("old", "new") if have_old else st in (None, "new", "MISSING")
                 model = {"existing_repository": have_old, "stop_before_file_operation": stop, "repository_path": st, "leftovers": sorted(n for n in os.listdir(root) if n != "name")}
                 if r == "stopped" and not ok_now:
                     between = have_old and st in (None, "MISSING") and tree_state(os.path.join(root, ".name.old")) == "old"
                     fails.append({"model": dict(model, between_the_two_renames=between), "detail": f"sync stopped before file operation #{stop}: the repository path holds {st}, other entries {model['leftovers']}"})
-                r2 = one_sync(root, tars["new"])
+                r2 = one_sync(root, tars["new"], etag="v2")
                 st2 = tree_state(basedir(root))
                 if (r2, st2) != ("ok", "new"):
                     fails.append({"model": dict(model, follow_up=True), "detail": f"sync stopped before file operation #{stop}; the next sync returned {r2} and the repository path holds {st2}, other entries {sorted(n for n in os.listdir(root) if n != 'name')}"})
